@@ -102,6 +102,9 @@ pub struct Profile {
     pub toroidal: bool,
     /// see `Gen::preset_incident_permille`
     pub preset_incident_permille: u64,
+    /// per-mille probability that a step (or the constructor) runs with one predicate call of
+    /// the kernel seam failing (F-kernel)
+    pub kernel_fault_permille: u64,
 }
 
 impl Default for Profile {
@@ -123,6 +126,7 @@ impl Default for Profile {
             small_start_permille: 0,
             toroidal: false,
             preset_incident_permille: 0,
+            kernel_fault_permille: 0,
             tick_limit: 0,
         }
     }
@@ -342,6 +346,14 @@ pub fn run<K: SimKernel<D>, const D: usize>(
                     }
                 }
             }
+            if i == 0 && profile.kernel_fault_permille > 0 {
+                let mut r = Rng::sub(rs, "ctor-kfaults", 0);
+                if r.below(1000) < profile.kernel_fault_permille {
+                    let site = if r.chance(1, 2) { crate::kfault::ORIENTATION } else { crate::kfault::IN_SPHERE };
+                    let span = *r.pick(&[8u64, 40, 200, 1000]);
+                    faults.push((site.to_string(), r.below(span)));
+                }
+            }
             OpRec { idx: i as u64, op: prologue[i].clone(), faults, knobs: knobs.clone() }
         } else {
             let idx = i as u64;
@@ -370,6 +382,14 @@ pub fn run<K: SimKernel<D>, const D: usize>(
                     for k in first + 1..first + 1 + r.below(3) {
                         faults.push((site.to_string(), k));
                     }
+                }
+            }
+            if profile.kernel_fault_permille > 0 {
+                let mut kr = Rng::sub(rs, "kfault", idx);
+                if kr.below(1000) < profile.kernel_fault_permille {
+                    let site = if kr.chance(1, 2) { crate::kfault::ORIENTATION } else { crate::kfault::IN_SPHERE };
+                    let span = *kr.pick(&[4u64, 16, 64, 256]);
+                    faults.push((site.to_string(), kr.below(span)));
                 }
             }
             OpRec { idx, op, faults, knobs: knobs.clone() }
